@@ -1,6 +1,7 @@
 package nc
 
 import (
+	_ "embed"
 	"fmt"
 	"go/token"
 	"go/types"
@@ -28,6 +29,7 @@ type Program struct {
 	Whole   bool
 
 	globalErr map[*ssa.Global]bool
+	expanding map[*ssa.Function]bool // new helpers whose results are being expanded (recursion guard)
 	funcByKey map[string]*ssa.Function
 	origins   map[*ssa.Function]*Origins
 	NFiles    int
@@ -92,7 +94,7 @@ func Load(opt LoadOptions) (*Program, error) {
 	}
 	p := &Program{RepoDir: repo, Fset: cfg.Fset, Whole: opt.Whole,
 		SSAPkg: map[string]*ssa.Package{}, funcByKey: map[string]*ssa.Function{},
-		origins: map[*ssa.Function]*Origins{}}
+		origins: map[*ssa.Function]*Origins{}, expanding: map[*ssa.Function]bool{}}
 	var errs []string
 	for _, pkg := range initial {
 		for _, e := range pkg.Errors {
@@ -301,4 +303,26 @@ func (p *Program) ConstVal(rel, name string) (string, bool) {
 		return "", false
 	}
 	return c.Val().ExactString(), true
+}
+
+//go:embed reffuncs.txt
+var refFuncsText string
+
+var refFuncs = func() map[string]bool {
+	m := map[string]bool{}
+	for _, l := range strings.Split(refFuncsText, "\n") {
+		if l = strings.TrimSpace(l); l != "" {
+			m[l] = true
+		}
+	}
+	return m
+}()
+
+// IsNewFunc: the module function does not exist (under that name) on the reference tree the rules
+// were confirmed on - typically a helper extracted later.
+func (p *Program) IsNewFunc(f *ssa.Function) bool {
+	if len(refFuncs) == 0 || f == nil || f.Pkg == nil || !p.InModule(f.Pkg.Pkg.Path()) {
+		return false
+	}
+	return !refFuncs[p.FuncKey(f)]
 }
